@@ -12,7 +12,7 @@ or `err=<class>`; after an error every further line of the case is answered `dea
   sum <pkg> <i,j,...|->                   Stream.sum([...], thermo=pkg, energy_balance=False)  (new stream)
   split <f> <a> <b> s <q> | v <q,q,...>   f.split_to(a, b, split, energy_balance=False)
   sep <x> <y>                             x.separate_out(y, energy_balance=False)
-  copy <d> <s> <*|=c|c,c,..|()> <rm> <ex> d.copy_flow(s, IDs, remove=, exclude=)
+  copy <d> <s> <*|=c|c,c,..|()> <rm> <ex> [phase]  d.copy_flow(s, [phase,] IDs, remove=, exclude=)
   scale <i> <k> | idiv <i> <k> | mul <i> <k> | div <i> <k> | empty <i>
 -/
 namespace Driver.C01
@@ -62,6 +62,22 @@ def parseIDs (t : String) : Option IDs :=
   if t == "*" then some .all
   else if t.startsWith "=" then (t.drop 1).toString.toNat?.map IDs.one
   else (parseNats t).map IDs.many
+
+def copyOp (st : St) (d s ids rm ex ph : String) : St × String :=
+  let w := st.w
+  match d.toNat?, s.toNat?, parseIDs ids with
+  | some d, some s, some ids =>
+    match w.strms[d]? with
+    | some ds =>
+      if ds.multi then
+        if ph == "*" then finish st (copyMulti w d s none ids (rm == "1") (ex == "1"))
+        else match parsePhases ph with
+          | some [c] => finish st (copyMulti w d s (some c) ids (rm == "1") (ex == "1"))
+          | _ => bad st
+      else if ph == "*" then finish st (copySingle w d s ids (rm == "1") (ex == "1"))
+      else bad st
+    | none => bad st
+  | _, _, _ => bad st
 
 def step (st : St) (line : String) : St × String :=
   if st.dead then (st, "dead") else
@@ -113,13 +129,8 @@ def step (st : St) (line : String) : St × String :=
     match x.toNat?, y.toNat? with
     | some x, some y => finish st (sep w x y)
     | _, _ => bad st
-  | ["copy", d, s, ids, rm, ex] =>
-    match d.toNat?, s.toNat?, parseIDs ids with
-    | some d, some s, some ids =>
-      match w.strms[d]? with
-      | some ds => if ds.multi then bad st else finish st (copySingle w d s ids (rm == "1") (ex == "1"))
-      | none => bad st
-    | _, _, _ => bad st
+  | ["copy", d, s, ids, rm, ex] => copyOp st d s ids rm ex "*"
+  | ["copy", d, s, ids, rm, ex, ph] => copyOp st d s ids rm ex ph
   | ["scale", i, k] =>
     match i.toNat?, parseRat? k with
     | some i, some k => finish st (scale w i k)
